@@ -102,6 +102,18 @@ def run_shard(ctx: Ctx, acc: Acc):
             acc.nontrivial(kind, sorted(d.items(), key=lambda kv: kv[0]).__repr__())
         if i < 3:
             acc.sample({"kind": kind, "definition": d, "text": str(gs.to_obj(sl, kind, d))})
+        if i % 2:
+            # a refused text first (truncated / quote removed): nothing of the failure may linger
+            try:
+                t0 = str(gs.to_obj(sl, kind, d))
+                for broken in (t0[:-1], t0.replace("'", "", 1)):
+                    try:
+                        with cpu_limit(3):
+                            gs.cls_of(sl, kind).from_string(broken)
+                    except (ValueError, CpuTimeout):
+                        acc.count("malformed-inputs-interleaved")
+            except Exception:
+                pass
         for key, what in check_one(kind, d):
             acc.violation(key, what, {"kind": kind, "definition": d})
             if key == "reparse-cpu-timeout":
